@@ -60,9 +60,16 @@ class PgEnv(Env):
         r0 = super().t_PartialEq__eq(M, st, th, ci, a)
         if r0 is not None: return r0
         x, y = a
+        def un(v):
+            # &&&String ... : follow references down to the last one (sterm takes the final step)
+            for _ in range(6):
+                if isinstance(v, Ref):
+                    w = M.deref(st, v)
+                    if isinstance(w, Ref): v = w; continue
+                break
+            return v
         try:
-            tx = sterm(M, st, M.deref(st, x) if isinstance(x, Ref) and isinstance(M.deref(st, x), Ref) else x)
-            ty = sterm(M, st, M.deref(st, y) if isinstance(y, Ref) and isinstance(M.deref(st, y), Ref) else y)
+            tx = sterm(M, st, un(x)); ty = sterm(M, st, un(y))
         except InternalError:
             return None
         return s.ret(st, simp(tx == ty))
